@@ -94,6 +94,7 @@ def c16(ctx: Ctx) -> None:
     ctx.rule('C16-TA8', 'an exception of the source escapes the producer (so that the consumer re-raises it); nothing in the producer swallows it', 2)
     ctx.rule('C16-TA9', 'the consumer loop is left only through the sentinel test; dequeues block without a timeout', 2)
     ctx.rule('C16-TA10', 'a caller-supplied event loop is not closed or stopped by the bridge', 1)
+    ctx.rule('C16-TA11', 'the sync bridge\'s worker runs the producer coroutine with run_until_complete on the given loop or a new one (never None)', 1)
     sent = _sentinel(p)
     if sent is None:
         raise AnalysisError('module-level sentinel (X = object()) not found')
@@ -254,6 +255,31 @@ def c16(ctx: Ctx) -> None:
                                       'the loop passed by the caller is closed/stopped: the next bridge (or anything else) on that loop fails or hangs',
                                       construct=construct_key(sc_.qualname, 'closes caller loop'))
             ctx.holds('C16-TA10', f'{fname}: scanned {len(scopes_)} scope(s) for close()/stop() on a caller-supplied loop', f'{A}:{f.lineno}')
+        # TA11: the worker really runs the producer - on a loop that exists
+        if not is_async:
+            ge_ = build(f, p, expand_deferred=True)
+            runs_ = [n for n in ge_.nodes if n.kind == 'call' and n.meta.get('deferred') and isinstance(n.ast.func, ast.Attribute)
+                     and n.ast.func.attr == 'run_until_complete']
+            okr = False
+            why_ = 'the submitted function does not run the producer coroutine to completion'
+            from ..dataflow import leaves as _leaves, unalias as _ua
+            from ..paths import envs_at as _envs_at, nonnull_at
+            for rn_ in runs_:
+                a0 = rn_.ast.args[0] if rn_.ast.args else None
+                runs_prod = isinstance(a0, ast.Call) and isinstance(a0.func, ast.Name) and a0.func.id in {c.name for c in prods} and not a0.args
+                lv_ = _ua(ge_, rn_, rn_.ast.func.value)
+                lfs = _leaves(ge_, rn_, rn_.ast.func.value)
+                src_ok = bool(lfs) and all((isinstance(x, ast.Call) and ge_.res.path(x.func) == 'asyncio.new_event_loop')
+                                           or (isinstance(x, ast.Name) and x.id in f.params) for x in lfs)
+                nn = isinstance(lv_, ast.Name) and nonnull_at(ge_, rn_, lv_.id)
+                if runs_prod and src_ok and nn:
+                    okr = True
+                elif runs_prod and src_ok:
+                    why_ = f'the loop {norm(lv_)} may be None when the worker runs (the default is not replaced by a new loop on every path)'
+            ctx.check('C16-TA11', f'{fname}: worker -> {[norm(n.ast) for n in runs_]}', f'{A}:{f.lineno}', okr and len(runs_) == 1,
+                      'the producer coroutine is driven by a real event loop in the worker thread',
+                      why_ + ': nothing is ever queued, not even the sentinel - the consumer blocks for ever',
+                      construct=construct_key(fname, 'worker does not run the producer'))
         # TA6
         pools = [n for n in g.nodes if n.kind == 'with_enter' and isinstance(n.ast, ast.Call)
                  and (g.res.path(n.ast.func) or '').endswith('ThreadPoolExecutor')]
@@ -297,6 +323,13 @@ def c16(ctx: Ctx) -> None:
                           'a synchronous iterator is advanced on the event loop thread: the loop blocks while the iterator blocks',
                           witness=render(g, w), construct=construct_key(fname, 'inline iteration'))
             ex = [n for n in g.nodes if n.kind == 'call' and isinstance(n.ast.func, ast.Attribute) and n.ast.func.attr == 'run_in_executor']
+            for sl in sync_loops:
+                # once the elements were yielded inline, the generator ends: it must not go on to the threaded path as well
+                fe_ = [e for e in g.succ[sl.id] if e.label == 'false']
+                w = find_path(g, [], ex + fut, start_edges=fe_, edge_ok=_nonexc) if (ex or fut) else None
+                ctx.check('C16-TA4', f'after the inline loop over {norm(sl.ast.iter)} the generator returns', g.loc(sl), w is None,
+                          'each element is yielded once', 'after yielding every element inline the iterable is iterated again through the worker thread: every element is delivered twice',
+                          witness=render(g, w), construct=construct_key(fname, 'inline path falls through'))
             okx = any(len(n.ast.args) == 2 and isinstance(n.ast.args[1], ast.Name) and n.ast.args[1].id in {c.name for c in prods} for n in ex)
             ctx.check('C16-TA4', f'producer handed to run_in_executor: {[norm(n.ast) for n in ex]}', f'{A}:{f.lineno}', okx,
                       'iteration happens on the helper thread', 'the producer is not run in the executor',
